@@ -6,6 +6,7 @@ the code by the correspondence check.
 import Decaf.Props.C05
 import Decaf.Lemmas.Formulas.MinAdd
 import Decaf.Lemmas.Formulas.MinDouble
+import Decaf.Lemmas.Formulas.OpForms
 
 namespace C05.Translated
 open Model Edwards
@@ -31,5 +32,11 @@ theorem order_dvd {c : Ext} {P : E} (h : ERepr c P) (he : Point.IsEven P) :
 theorem ladders_agree {c : Ext} {p : E} (h : ERepr c p) (limbs : List ℕ) (hl : ∀ l ∈ limbs, l < 2 ^ 64) :
     Ext.eq (scalarMulCode c limbs) (c.scalarMulRef limbs) = true := by
   rw [scalarMulCode_eq]; exact C05.ladders_agree h limbs hl
+
+/-- every `Mul` / `MulAssign` form (element × scalar and scalar × element, owned / borrowed, affine and projective, both
+backends; list regenerated from the sources on every run) denotes the module action -/
+theorem mul_forms (k : ℕ) (P : E) :
+    ∀ f ∈ (Gen.OpForms.mulForms : List (String × (ℕ → E → E))), f.2 k P = k • P :=
+  fun f hf => Formulas.OpForms.mulForms_correct f hf k P
 
 end C05.Translated
